@@ -476,3 +476,112 @@ def run(chk, repo, tier):
                                                   'every sibling, duplicating unrelated lines')
     if n8 == 0:
         raise AnalysisError('S8: no len()-position bookkeeping found (CodeRecord.update_statements moved?)')
+    run_more(chk, repo)
+
+
+def run_more(chk, repo):
+    from sa.cfg import CFG
+    S9 = chk.rule('S9', 'statement index entries (pos, pos + n) describe exactly the nodes appended next: no other growth of '
+                        'the node list between taking the position and appending them, and n is their count', floor=2)
+    S10 = chk.rule('S10', 'record objects are created fresh on every call (records are replaced/removed by identity): the '
+                          'factory and constructors are not memoised', floor=3)
+    crm = repo.module(f'{NM}.records.code_record')
+    cr = crm.classes.get('CodeRecord')
+    us = cr.methods.get('update_statements') if cr else None
+    if us is None:
+        raise AnalysisError('CodeRecord.update_statements not found')
+    cfg = CFG(us.node)
+    defs = {n.targets[0].id: n.value for n in walk_no_nested(us.node) if isinstance(n, ast.Assign)
+            and len(n.targets) == 1 and isinstance(n.targets[0], ast.Name)}
+    pos_nodes = [n for n in cfg.nodes.values() if n.kind == 'stmt' and isinstance(n.ast, ast.Assign)
+                 and isinstance(n.ast.value, ast.Call) and dotted(n.ast.value.func) == 'len'
+                 and isinstance(n.ast.targets[0], ast.Name) and isinstance(n.ast.value.args[0], ast.Name)]
+    n9 = 0
+    for p in pos_nodes:
+        pv, lst = p.ast.targets[0].id, p.ast.value.args[0].id
+
+        def grows(nd):
+            a = nd.ast
+            return nd.kind == 'stmt' and isinstance(a, ast.Expr) and isinstance(a.value, ast.Call) \
+                and isinstance(a.value.func, ast.Attribute) and a.value.func.attr in ('extend', 'append') \
+                and unparse(a.value.func.value) == lst
+        growth = {n.id for n in cfg.nodes.values() if grows(n)}
+        first = set()
+        for s_ in cfg.g.successors(p.id):
+            if s_ in growth:
+                first.add(s_)
+            else:
+                reach = cfg.reachable(s_, avoid=growth | {p.id})
+                for r in reach:
+                    for s2 in cfg.g.successors(r):
+                        if s2 in growth:
+                            first.add(s2)
+        # the index tuple that uses this position
+        tuples = [t for n in cfg.nodes.values() if n.kind == 'stmt' and n.ast is not None
+                  for c in ast.walk(n.ast) if isinstance(c, ast.Call) and isinstance(c.func, ast.Attribute)
+                  and c.func.attr == 'append' and c.args and isinstance(c.args[0], ast.Tuple)
+                  for t in [c.args[0]] if len(t.elts) >= 2 and unparse(t.elts[0]) == pv
+                  and p.id in {x for x in cfg.nodes if n.id in cfg.reachable(x, avoid=set())} and n.id in cfg.reachable(p.id, avoid={q.id for q in pos_nodes if q is not p})]
+        if not tuples or not first:
+            continue
+        for t in tuples:
+            second = t.elts[1]
+            if not (isinstance(second, ast.BinOp) and isinstance(second.op, ast.Add) and unparse(second.left) == pv):
+                raise AnalysisError(f'S9: index tuple {unparse(t)} not of the form (pos, pos + n, ...)')
+            n_expr = second.right
+            if isinstance(n_expr, ast.Name) and n_expr.id in defs and not isinstance(defs[n_expr.id], ast.Call):
+                n_expr = defs[n_expr.id]
+            for g in sorted(first):
+                gnode = cfg.nodes[g]
+                x = gnode.ast.value.args[0]
+                if isinstance(x, ast.Subscript) and isinstance(x.slice, ast.Slice) and x.slice.lower is not None \
+                        and x.slice.upper is not None:
+                    want = f'{unparse(x.slice.upper)} - {unparse(x.slice.lower)}'
+                elif isinstance(x, ast.Name):
+                    want = f'len({x.id})'
+                else:
+                    raise AnalysisError(f'S9: growth argument {unparse(x)} not recognised')
+                ok = unparse(n_expr) == want
+                n9 += 1
+                chk.instance(S9, f'{pv} = len({lst}); index ({pv}, {pv} + {unparse(n_expr)}); next growth '
+                                 f'`{gnode.text()[:60]}` adds {want} node(s): {ok}')
+                if not ok:
+                    chk.violation(S9, crm.rel, us.qualname, f'{p.text()} ... {gnode.text()[:70]}',
+                                  f'the recorded node range starts at `{pv}` and has {unparse(n_expr)} nodes, but the next nodes '
+                                  f'appended after taking `{pv}` are {unparse(x)} ({want}): the index points at other nodes than '
+                                  f'the statement\'s', line=p.line,
+                                  witness='edit a statement once, then edit the following statement that is preceded by a comment '
+                                          'or blank line: the comment is deleted and the old statement stays next to the new one')
+    if n9 < 2:
+        raise AnalysisError(f'S9: only {n9} index entries recognised in update_statements')
+    # S10
+    fm = repo.module(f'{NM}.records.factory')
+    MEMO = ('lru_cache', 'cache', 'cached', 'memoize', 'cached_property')
+    targets = [('create_record', fm.functions.get('create_record'), fm)]
+    rm = repo.module(f'{NM}.records.record')
+    rc = rm.classes.get('Record')
+    if rc is not None:
+        for name in ('__init__', '__new__'):
+            if name in rc.methods:
+                targets.append((f'Record.{name}', rc.methods[name], rm))
+    npm = repo.module(f'{NM}.nmtran_parser')
+    for name, f in npm.functions.items():
+        if 'record' in name.lower():
+            targets.append((name, f, npm))
+    for cls in npm.classes.values():
+        for name, f in cls.methods.items():
+            if name in ('parse', '_parse', 'parse_records'):
+                targets.append((f'{cls.name}.{name}', f, npm))
+    for label, f, mod in targets:
+        if f is None:
+            raise AnalysisError(f'S10: {label} not found')
+        decs = [unparse(d) for d in f.node.decorator_list]
+        memo = [d for d in decs if any(m in d for m in MEMO)]
+        chk.instance(S10, f'{label}: decorators {decs}')
+        if memo:
+            chk.violation(S10, mod.rel, label, ', '.join(memo),
+                          'equal record text yields the same object; replace_records/remove_records select records by identity, '
+                          'so editing one record also replaces or removes every other record with the same text',
+                          line=f.node.lineno,
+                          witness='a control stream with two $PROBLEMs that repeat the same $PRED: editing a statement of the '
+                                  'first removes the second problem\'s $PRED')
